@@ -366,6 +366,8 @@ func posScenarios(id, tier string) []Scenario {
 			{Label: "M(k2)", Block: chain.Block{Missed: []int{2}}},
 			{Label: "M(k0,k2)", Block: chain.Block{Missed: []int{0, 2}}},
 			txB("stake(k0,min) restake", chain.TxSpec{Msg: "stake", From: 0, Amount: min}),
+			evB("burn(k0,0.6) forces unstake without jailing", chain.Event{Kind: "burn", Who: 0, Sev: "0.6"}),
+			Choice{Label: "M+burn(k0,0.6)", Block: chain.Block{Missed: []int{0}, Events: []chain.Event{{Kind: "burn", Who: 0, Sev: "0.6"}}}},
 		}
 		k, d := kd(3, 5, 5, 7)
 		scs = append(scs, Scenario{Name: "interleaved-W=2", Cfg: windowCfg(2, 1, 2, 2*min), Alphabet: inter, K: k, D: d, Tail: 1})
